@@ -2,6 +2,25 @@
 // exit 0 + "REPLAY-OK reached=<bits>": the script ran, every oracle held
 // exit 101 (panic): an oracle or the crate itself panicked; message on stderr
 // exit 3: unknown harness, exit 4: script rejected by a harness assumption
+// C18: count allocations and frees while the interpreter has armed the counter
+struct Counting;
+unsafe impl std::alloc::GlobalAlloc for Counting {
+    unsafe fn alloc(&self, l: std::alloc::Layout) -> *mut u8 {
+        futures_intrusive::verif::common::note_alloc_event();
+        std::alloc::System.alloc(l)
+    }
+    unsafe fn dealloc(&self, p: *mut u8, l: std::alloc::Layout) {
+        futures_intrusive::verif::common::note_alloc_event();
+        std::alloc::System.dealloc(p, l)
+    }
+    unsafe fn realloc(&self, p: *mut u8, l: std::alloc::Layout, n: usize) -> *mut u8 {
+        futures_intrusive::verif::common::note_alloc_event();
+        std::alloc::System.realloc(p, l, n)
+    }
+}
+#[global_allocator]
+static GLOBAL: Counting = Counting;
+
 fn main() {
     let args: Vec<String> = std::env::args().collect();
     if args.len() < 5 {
